@@ -26,7 +26,8 @@ RULE = (
     "Each run draws one computer configuration and a history of 1-6 utterances on ONE instance: every utterance "
     "is streamed (seeded chunk schedule, empty chunks, 0-3 extra finalizes, 0-2 refused compute_full / "
     "frame_by_frame calls injected mid-utterance), or run through compute_full, or through "
-    "frame_by_frame_calculation; successive utterances are drawn from different length classes and dtypes. "
+    "frame_by_frame_calculation; successive utterances are drawn from different length classes and dtypes; in 12 % of "
+    "the runs a second live computer of the same configuration is stepped between the calls (co-tenant). "
     "Non-trivial = at least two utterances of which a later one yields >= 1 frame, or a probe fired. Distinct = "
     "distinct history signatures (computer kind, style, and per utterance: mode, dtype, length class, "
     "collapsed chunk-length classes, refusal positions, number of extra finalizes)."
